@@ -21,6 +21,7 @@ func init() {
 
 func runC03(p *eng.Prog, r *eng.Report, tier string) {
 	c := &cx{p, r, tier}
+	c.r.Floor("C03.16", "reads of the prerequisite masks", prerequisitesOnlyTested(c, "C03.16"), 6)
 	bitProducers(c, "C03.1", 2, "Authn", map[string]string{
 		"xmpp.negotiateClient":   "",
 		"xmpp.negotiateServer":   "",
